@@ -22,13 +22,15 @@ TEXT = {
             "DESIGN.md sections 4.2, 5 C01"),
     "C02": ("complete enumeration of the A x operand x F cube through CPU.Step against tables of a bit-serial ALU",
             "All 559 encodings of the 8-bit ALU / rotate / shift / bit families are executed on the complete cube of the values they read (3.0e9 points) and compared with the "
-            "bit-serial reference ALU, including the written operand and every register the instruction does not name. The cube is finite and enumerated completely in both tiers.",
+            "bit-serial reference ALU, including the written operand and every register the instruction does not name. The cube is finite and enumerated completely in both tiers; "
+            "the memory-operand encodings run once more on short / full DumbMemory, MapMemory and a read-sensitive memory.",
             "Trusted: the bit-serial definitions in harness/ref/alu.go (ripple-carry adder, parity loop, DAA table), cross-validated by the zex CRCs; the other registers, d and PC are fixed "
             "per encoding from the seed (their irrelevance is C01's subject).",
             "DESIGN.md section 5 C02"),
     "C03": ("enumeration of operand pairs x carry x preserved flag bits through CPU.Step against a wide-integer definition",
             "Thorough enumerates all 2^32 operand pairs x carry for each of the 15 non-doubling ADD HL/IX/IY, ADC HL, SBC HL encodings, plus structured pairs x all 256 F, doubling forms and "
-            "INC/DEC ss over all 65536 values x 256 F; quick enumerates seed-positioned slices (2^24..2^28 pairs per encoding) plus the complete structured / doubling / INC-DEC parts. The whole register file is compared.",
+            "INC/DEC ss over all 65536 values x 256 F; quick enumerates seed-positioned slices (2^24..2^28 pairs per encoding) plus the complete structured / doubling / INC-DEC parts. The whole register file is compared; "
+            "instruction cells are read-sensitive, prefix-like bytes stand in front of the instruction, 1/2048 of the points run on a CPU value that has just executed an ineffective prefix.",
             "Trusted: the wide-integer flag definitions in c03_test.go, cross-checked on every run against the bit-serial adder on 1e6 points.",
             "DESIGN.md section 5 C03"),
     "C04": ("enumeration of all F / B values per conditional opcode x rapid-drawn placements against a directly written oracle, plus model-free round trips",
@@ -57,7 +59,7 @@ TEXT = {
             "DESIGN.md section 5 C07"),
     "C08": ("differential testing of Run against a Step-driven twin with the stop rule written from the property",
             "Generated terminating programs and byte strings x breakpoint sets x up to six consecutive Run calls x stale HALT x device scripts that raise requests at a chosen access; error, registers incl. R, "
-            "HALT, memory, access count, pending request and port output are compared after every call.",
+            "HALT, memory, access count, pending request and port output are compared after every call; break points are also armed by device callbacks during a call, and a third of the twins never write the HALT field.",
             "Trusted: Step (decided by C01/C06) and the ten-line stop rule in c08_test.go.",
             "DESIGN.md section 5 C08"),
     "C09": ("closed-form functional specification of the whole block operation vs Step-until-done; lock-step model for self-modifying runs",
@@ -67,12 +69,13 @@ TEXT = {
             "DESIGN.md section 5 C09"),
     "C10": ("metamorphic testing (clone == original, interleaved == alone, concurrent == alone) under the race detector",
             "Byte-soup programs with interrupts and rewrite/set-PC actions: a CPU rebuilt from copies of States, pending request, HALT and memory at snapshot points must continue exactly like the original; "
-            "a CPU stepped alternately with another one must reproduce its solo trace; 2..16 goroutines running their own CPUs must each reproduce their solo trace; built with -race.",
+            "a CPU stepped alternately with another one must reproduce its solo trace; 2..16 goroutines running their own CPUs (Step-driven, and Run-driven with their own break points) must each reproduce their solo trace; "
+            "the same at Run boundaries (a CPU rebuilt before every Run call); machines without I/O device, unsupported encodings under contention, observer registration flipped on clones; built with -race.",
             "The race detector only sees races in the schedules that ran; hidden state is detected only if it influences an executed trace.",
             "DESIGN.md section 5 C10"),
     "C11": ("metamorphic IX<->IY mirror over all 2 x 256 prefixed byte values x rapid-drawn states, no model",
             "Every second byte after DD/FD and every fourth byte after DDCB/FDCB is run as DD form from S and FD form from swap(S); post-states must mirror and access sequences be identical apart from "
-            "the prefix byte; re-running with the other index register perturbed must change nothing else.",
+            "the prefix byte; re-running with the other index register perturbed must change nothing else, and at every bus access a device finds the other index register as it was.",
             "Cases where a data access hits the prefix byte's own address are excluded (the property exempts the prefix byte) and counted.",
             "DESIGN.md section 5 C11"),
     "C12": ("robustness fuzzing: deterministic prefix sweep, rapid-generated byte strings and (thorough) native coverage-guided go fuzzing, with a semantic oracle for invalid opcodes",
@@ -82,37 +85,38 @@ TEXT = {
             "DESIGN.md section 5 C12"),
     "C13": ("schedule-owning fault injection: cancellation instants generated by the harness, Step-driven twin, goroutine accounting, race detector",
             "Batches of Run calls over tight loops, block loops, I/O loops and terminating programs with the context cancelled before the call, from a bus callback at a chosen access, from a timer goroutine, "
-            "by deadline, or never; the returned error, a 10 s bound on the delay, equality with a twin stopped at the same access count (whole Steps), goroutine count after each batch and race reports are checked.",
+            "by deadline, or never (plain, cause-carrying and foreign context types; masked, mode-0 and storming requests pending; unreached break points; programs that end at once); the returned error, a 10 s bound on the delay "
+            "(300 ms after 1.0 / 1.414 s of running), equality with a twin stopped at the same access count (whole Steps), goroutine count after each batch and race reports are checked.",
             "Bounded delay uses a wall-clock bound four orders of magnitude above normal behaviour; data races are only seen in executed schedules.",
             "DESIGN.md section 5 C13"),
     "C14": ("enumeration of all 256 R values x I values per encoding plus rapid-drawn states against the fetch-count rule",
             "All 930 implemented encodings x all 256 starting R x several I values are stepped and R/I compared with the fetch-count rule (1 / 2 / DDCB 2-or-3, bit 7 kept, LD R,A / LD I,A only writers); "
-            "LD A,R / LD A,I over all R x IFF2 x all F; multi-Step programs with block repeats and HALT; short memories; the exerciser images as long programs.",
+            "LD A,R / LD A,I over all R x IFF2 x all F; multi-Step programs with block repeats and HALT; short memories; the exerciser images as long programs; R after whole block operations and after Run calls.",
             "Trusted: the prefix-class table of the reference model.",
             "DESIGN.md section 5 C14"),
     "C15": ("model-based stateful testing (rapid) against array / map models",
             "Generated operation histories on DumbMemory (lengths 0..65536, addresses biased to len-1, len, len+1), DumbIO and pools of MapMemory values (Set/Put with wrap/Clone/Clear/Equal); "
-            "after every operation all touched addresses and neighbours are read back and compared with the model.",
+            "after every operation all touched addresses and neighbours are read back and compared with the model (blocks up to 65 600 bytes, moves inside the store, Clear seen through a second handle, equality unchanged by reads, nil vs initialised).",
             "Nil maps and 'explicit default entry vs absent entry' in Equal are not asserted (ambiguous in the property).",
             "DESIGN.md section 5 C15"),
     "C16": ("complete enumeration of the finite input space against bit definitions",
             "Every (op, mask, F, A) combination and every 16-bit register value is executed through the public accessors (directly and via CPU) and compared with the bit-level definition; "
-            "the space is finite and enumerated completely in both tiers, so a pass means there is no counterexample.",
+            "the space is finite and enumerated completely in both tiers, so a pass means there is no counterexample; one combination in 16 also on copies of used CPU values, after EX AF,AF' / EXX, from inside device callbacks, and every mask once more written as a complement.",
             "Trusted: the definitions written in c16_test.go (any-of for GetFlag, OR / AND-NOT, Z80 bit positions).",
             "DESIGN.md section 5 C16"),
     "C17": ("complete differential comparison of the Go tables with records parsed out of the canonical program images (SHA-256 pinned)",
             "All 2 x 67 records x 65 bytes + message are located through the images' own pointer tables and compared byte for byte, in order, with internal/zex; counts must match. "
-            "The space is finite and compared completely; there is nothing to sample.",
+            "The space is finite and compared completely, in a plain and in a -race build; there is nothing to sample.",
             "Trusted: the SHA-256 values of zexdoc.cim / zexall.cim taken from the pristine tree, and the 40-line image parser.",
             "DESIGN.md section 5 C17"),
     "C18": ("generated client programs run on the bundled CP/M machine against an expected-console-string oracle",
             "Programs with drawn sequences of function-2 / function-9 calls (strings of 0..4096 bytes of every value but '$' at drawn addresses), unsupported functions and stray port accesses, "
-            "with a breakpoint after every CALL 5: console bytes, return address, SP, final halt at 0xFF03, intact code and warning count are checked.",
+            "with a breakpoint after every CALL 5: console bytes, return address, SP, final halt at 0xFF03, intact code and warning count are checked; console writers = buffer, failing-once recorder, *os.File; other registers loaded before calls; several machines printing concurrently (race).",
             "After an unsupported function only 'no panic, output so far as requested' is asserted (the property is silent).",
             "DESIGN.md section 5 C18"),
     "C19": ("differential testing of the freshly built binaries against an independently written container encoder",
             "cim2bin and cim2cas are built from the current tree and executed on drawn offsets (decimal / hex / default), lengths incl. exact fit to 0xFFFF, contents incl. container-magic bytes, and names of "
-            "0..12 characters (incl. default from the file name); outputs must be byte-equal to the encoder written from the property text.",
+            "0..12 characters (incl. default from the file name, argument spelled with directory parts, other extensions, -nam= passed empty); image from a file or piped in pieces, output to files (fresh, stale, the input itself) or /dev/stdout; outputs must be byte-equal to the encoder written from the property text.",
             "Process execution makes cases expensive (ms each): hundreds (quick) to tens of thousands (thorough) of executions.",
             "DESIGN.md section 5 C19"),
 }
